@@ -148,6 +148,31 @@ CHECKS.update({
             'Fresh process = fork of a process that imported but never called the '
             'library; real new processes only for the hash-seed batch.', '7/C14'),
 })
+CHECKS.update({
+    'C06': (E1, 'bounded-exhaustive BFS over graph histories x float-compute mode '
+            'assignments x input alphabet; translation validation by executing a '
+            'reference program built from the input IR and the decoded constants',
+            'For every graph with a weight-bearing operator (depth<=2 with '
+            'neighbours, depth 3 representatives) x uniform and per-operator '
+            'mixed recipes over weight-only/float16/dynamic-range modes x every '
+            'input of the alphabet, the quantized model and a reference program '
+            '(input IR + independently decoded constants) run in LiteRT; '
+            'weight-only/float16 must agree to float32 rounding, dynamic-range '
+            'within the analytic activation-quantisation bound propagated with '
+            'Lipschitz constants.',
+            'Inputs are covered on the finite alphabet only. The dynamic-range '
+            'bound is an upper bound (sound, not tight).', '7/C06'),
+    'C07': (E1, 'bounded-exhaustive BFS over graph histories x static-range configs x '
+            'calibration inputs; executed comparison with the float model',
+            'All 21 ops and variants at depth 1 under all 8 accepted static '
+            'configs, all pairs at depth 2, representatives at depth 3, '
+            'calibrated on the test input: outputs finite, not constant when the '
+            'float output is not, and within 4 output steps + a fixed fraction of '
+            'the activation magnitude (measured margin >= 5x on the unchanged '
+            'tree).',
+            'The bound is the property\'s loose one; C04/C05 carry sharp '
+            'detection.', '7/C07'),
+})
 NOT_YET = {
 }
 
